@@ -442,7 +442,8 @@ HOST_A = {'name': 'platform-A', 'errorcode': {str(i): 'EA%d' % i for i in range(
 HOST_B = {'name': 'platform-B', 'errorcode': {str(i): 'EB%d' % i for i in range(1, 200)},
           'Signals': {str(i): 'SIGB%d' % i for i in range(1, 65)},
           'AddressFamily': {str(i): 'AF_B%d' % i for i in range(0, 64)},
-          'SocketKind': {str(i): 'SOCK_B%d' % i for i in range(1, 16)}, 'SOL_SOCKET': 0xffff, 'shift_constants': 1000}
+          'SocketKind': {str(i): 'SOCK_B%d' % i for i in range(1, 16)}, 'SOL_SOCKET': 0xffff, 'shift_constants': 1000,
+          'byteorder': 'big', 'platform': 'platform-b', 'c_long_bits': 32}
 
 
 def host_key_constraints(s):
@@ -619,7 +620,8 @@ def an_C04_window(mod, name, paths, fq):
     if n == 0:
         return []
     if bad:
-        return [rec(ob, 'refuted', 'symbolic execution', 0, fq, bad, viol={'request': None, 'what': '%s: %s' % (name, bad), 'solver_output': bad})]
+        return [rec(ob, 'refuted', 'symbolic execution', 0, fq, bad, viol={'request': {'kind': 'window_order_case', 'decoder': name},
+                                                                           'what': '%s: %s' % (name, bad), 'solver_output': bad})]
     return [rec(ob, 'proved', 'symbolic execution (object identity on %d paths)' % n, 0, fq)]
 
 
@@ -631,7 +633,8 @@ def an_C07_full(mod, name, paths, fq):
         r = dict(r)
         r['name'] = r['name'].replace('C04/window/', 'C07/window/', 1)
         if r.get('viol'):
-            r['viol'] = dict(r['viol'], request={'kind': 'headless_window_case', 'decoder': name})
+            r['viol'] = dict(r['viol'], request={'kind': 'headless_window_case', 'decoder': name},
+                             alternatives=[{'kind': 'window_order_case', 'decoder': name}])
         out.append(r)
     return out
 
